@@ -365,11 +365,39 @@ def one_program(col, pid, rng, feats, depth, pidx, reps=3, clauses=True, flavour
                     col.inconclusive.append("controller bypassed: %s" % e.get("why"))
 
 
+def rejected_description(k):
+    """A description that tawazi rejects loudly (and the user catches): later descriptions must be unaffected."""
+    from tawazi import dag, xn
+
+    f = xn(probes.mkprobe("rej_f%d" % k))
+
+    @dag
+    def rej_inner(x):
+        return f(x, twz_active=x)
+
+    try:
+        if k % 2 == 0:
+            @dag
+            def rej_outer(x):  # an activation flag on a nested DAG whose node already has one -> RuntimeError
+                return rej_inner(x, twz_active=x)
+        else:
+            @dag
+            def rej_outer2(x):  # the same DAG object nested twice -> KeyError (ids already occupied)
+                return rej_inner(x), rej_inner(x)
+    except BaseException as e:  # noqa: BLE001
+        if isinstance(e, (KeyboardInterrupt, SystemExit)):
+            raise
+        return type(e).__name__
+    return None
+
+
 @job("diff")
 def job_diff(j):
     rng = random.Random(j["seed"])
     col = Collector()
     for pidx in range(j["n_programs"]):
+        if pidx % 7 == 3:
+            col.counters["rejected_descriptions_before_next_build:%s" % rejected_description(pidx)] += 1
         one_program(col, j["pid"], rng, j["feats"], j.get("depth", 0), pidx, reps=j.get("reps", 3), clauses=j.get("clauses", True),
                     flavours=j.get("flavours"), only=j.get("only"))
     return col.result()
